@@ -132,9 +132,119 @@ class Inputter(Job):
         return None
 
 
+class _RL:
+    """stand-in for the readline module as far as _wrapped_completer uses it"""
+    @staticmethod
+    def get_completion_type():
+        return 9
+
+
+class _TB:
+    @staticmethod
+    def print_exc(*a, **kw):
+        pass
+
+
+class TabSession(Inputter):
+    """the completer exactly as readline drives it - completer(text, 0), completer(text, 1), ... until None; an exception makes readline discard
+    the attempt - over three TAB presses: on a symbolic line a, on a symbolic line b, and on b again (the double TAB that lists alternatives).
+    Every completion offered at a TAB extends the line as it was at that TAB."""
+    functions = ["_rlcompleter.CodeInputter.completer/_wrapped_completer/_commit_and_build_completions"] + Inputter.functions[1:]
+
+    def __init__(self, na, nb):
+        self.na, self.nb = na, nb
+        self.name = "tab_session_%d_%d" % (na, nb)
+        self.bounds = dict(first_line_len=na, second_line_len=nb, tabs="line a, line b, line b again", alphabet="1 2 - a s", server_nameplates=["1", "12"])
+        self.must_reach = ("nt:offered",) + (("nt:completer-raised",) if nb >= 2 else ())
+
+    def press(self, ci, text):
+        out = []
+        for state in range(300):
+            try:
+                m = ci.completer(text, state)
+            except (errors.KeyFormatError, errors.AlreadyInputNameplateError) as e:
+                return None, type(e).__name__
+            if m is None:
+                break
+            out.append(m)
+        return out, None
+
+    def session(self, ta, tb):
+        i = INP.Input(DebugTiming())
+        C, L = RecC(), RecL()
+        i._C, i._L = C, L
+        h = i.start()
+        i.got_nameplates({"1", "12"})
+        ci = RL.CodeInputter(h, None)
+
+        def bcft(f, *a, **kw):
+            if getattr(f, "__name__", "") == "when_wordlist_is_available":
+                i.got_wordlist(WL.PGPWordList())
+                return None
+            return f(*a, **kw)
+        ci.bcft = bcft
+        res = []
+        for text in (ta, tb, tb):
+            res.append((text,) + self.press(ci, text))
+        return res
+
+    def judge(self, res):
+        for k, (text, offered, exc) in enumerate(res):
+            for c in offered or []:
+                r = (c if isinstance(c, SymStr) else SymStr(list(c))).startswith(text) if isinstance(c, (str, SymStr)) else False
+                if not (r if isinstance(r, bool) else bool(r)):
+                    return "TAB #%d on %r offered %r, which does not extend what was typed" % (k + 1, conc(text), conc(c))
+        return None
+
+    def scenario(self):
+        ta = fresh_str("line_a", self.na)
+        tb = fresh_str("line_b", self.nb)
+        for s in (ta, tb):
+            for c in s.c:
+                eng().assume(z3.Or([c == ord(x) for x in "12-as"]))
+        eng().inputs.update(line_a=ta, line_b=tb)
+        with loader.shadow((NP, "re", RX.SymReModule()), (WL, "set", SymSet), (RL, "isinstance", V.sym_isinstance), (RL, "readline", _RL), (RL, "traceback", _TB),
+                           (RL, "print", lambda *a, **kw: None)):
+            res = self.session(ta, tb)
+            p = self.judge(res)
+        if p:
+            check(False, p)
+        else:
+            st = eng().stats
+            st.obligations += 1
+            st.discharged += 1
+            st.trivial += 1
+        if any(o for (_, o, _) in res):
+            eng().note("nt:offered")
+        if any(e for (_, _, e) in res):
+            eng().note("nt:completer-raised")
+        return tuple((len(o) if o is not None else -1, e) for (_, o, e) in res)
+
+    def validate(self, inp, observed):
+        with loader.shadow((RL, "readline", _RL), (RL, "traceback", _TB), (RL, "print", lambda *a, **kw: None)):
+            res = self.session(inp["line_a"], inp["line_b"])
+        obs = tuple((len(o) if o is not None else -1, e) for (_, o, e) in res)
+        if tuple(tuple(x) for x in observed) != obs:
+            return "symbolic %r vs concrete %r for %r / %r" % (observed, obs, inp["line_a"], inp["line_b"])
+
+    def replay(self, inp, label):
+        import contextlib
+        import io
+        RL.readline = _RL
+        with contextlib.redirect_stdout(io.StringIO()), contextlib.redirect_stderr(io.StringIO()):
+            res = self.session(inp["line_a"], inp["line_b"])
+        p = self.judge(res)
+        if p:
+            return "TAB on %r, TAB on %r, TAB again: %s" % (inp["line_a"], inp["line_b"], p)
+        return None
+
+
 def jobs(tier):
     thorough = tier == "thorough"
     J = []
+    for na in ((0, 1, 2) if thorough else (0, 1)):
+        for nb in ((1, 2, 3, 4) if thorough else (2, 3)):
+            J.append(TabSession(na, nb))
     for n2 in (range(0, 6) if thorough else range(0, 5)):
         J.append(Inputter(0, n2, False))
     for n1 in (range(0, 5) if thorough else range(0, 4)):
